@@ -100,6 +100,9 @@ class Model(HoloPyObject):
                 '_parameter_names', '_maps']
         if len(self.constraints) > 0:
             keys.append('constraints')
+        if getattr(self, 'calc_func', calc_holo) is not calc_holo:
+            # ExactModel with a custom calculation function
+            keys.append('calc_func')
         for key in keys:
             item = getattr(self, key)
             if isinstance(item, np.ndarray) and item.ndim == 1:
@@ -131,6 +134,8 @@ class Model(HoloPyObject):
             kwargs.update(read_map(maps[key], parameters))
         if 'constraints' in fields:
             kwargs['constraints'] = fields['constraints']
+        if 'calc_func' in fields:
+            kwargs['calc_func'] = fields['calc_func']
         model = cls(**kwargs)
         if model._parameters == parameters:
             model._parameter_names = fields['_parameter_names']
